@@ -16,21 +16,38 @@ import (
 	"go.opentelemetry.io/otel/sdk/verifh/vh"
 )
 
+// setScripts: what an installer does. Mostly the single real install; otherwise the other documented shapes:
+// self-set(s) before / after, a second real provider, both.
+var setScripts = [][]string{{"r1"}, {"r1"}, {"r1"}, {"r1"}, {"self", "r1"}, {"r1", "r2"}, {"self", "r1", "r2"}, {"r1", "self"},
+	{"self"}, {"self", "self", "r2"}, {"r2", "r1"}, {"r1", "self", "r2"}}
+
 func randomScenario(r *rand.Rand, i int) Scenario {
 	sc := Scenario{Name: fmt.Sprintf("random-%d", i), Seed: r.Int63(), Perturb: []float64{0, 0.3, 0.7, 1}[r.Intn(4)]}
 	meter := func() string { return []string{"m1", "m1", "m2"}[r.Intn(3)] }
 	add := func(p Proc) { sc.Procs = append(sc.Procs, p) }
+	script := func() []string { return setScripts[r.Intn(len(setScripts))] }
+	kept := func() bool { return r.Intn(4) == 0 }
+	// two installers of one kind: at most one of them brings real providers in more than one flavour, so that
+	// "the first real provider" stays attributable in most scenarios (the contract copes with the others)
+	second := func() []string { return [][]string{{"self"}, {"r1"}, {"r2"}, {"self", "self"}}[r.Intn(4)] }
 	if r.Intn(10) < 8 { // metric side
 		for k, n := 0, []int{1, 1, 1, 1, 2, 0}[r.Intn(6)]; k < n; k++ {
-			add(Proc{Name: fmt.Sprintf("i%d", k+1), Kind: "minst"})
+			p := Proc{Name: fmt.Sprintf("i%d", k+1), Kind: "minst", Script: script()}
+			if k > 0 {
+				p.Script = second()
+			}
+			add(p)
 		}
 		for k, n := 0, 1+r.Intn(3); k < n; k++ {
-			add(Proc{Name: fmt.Sprintf("c%d", k+1), Kind: "creator", Meter: meter(), IKind: syncKinds[r.Intn(len(syncKinds))],
-				Pre: r.Intn(2) == 0, N: 1 + r.Intn(4)})
+			p := Proc{Name: fmt.Sprintf("c%d", k+1), Kind: "creator", Meter: meter(), IKind: syncKinds[r.Intn(len(syncKinds))],
+				Pre: r.Intn(2) == 0, N: 1 + r.Intn(4)}
+			p.Kept = !p.Pre && kept()
+			add(p)
 		}
 		for k, n := 0, r.Intn(4); k < n; k++ {
 			g := Proc{Name: fmt.Sprintf("g%d", k+1), Kind: "registrar", Meter: meter(), IKind: obsKinds[r.Intn(len(obsKinds))],
 				Pre: r.Intn(2) == 0, Unreg: r.Intn(10) < 6}
+			g.Kept = !g.Pre && kept()
 			add(g)
 			if r.Intn(5) == 0 {
 				add(Proc{Name: fmt.Sprintf("v%d", k+1), Kind: "unregistrar", Target: g.Name})
@@ -42,23 +59,29 @@ func randomScenario(r *rand.Rand, i int) Scenario {
 	}
 	if r.Intn(10) < 5 { // trace side
 		for k, n := 0, []int{1, 1, 1, 2, 0}[r.Intn(5)]; k < n; k++ {
-			add(Proc{Name: fmt.Sprintf("ti%d", k+1), Kind: "tinst"})
+			p := Proc{Name: fmt.Sprintf("ti%d", k+1), Kind: "tinst", Script: script()}
+			if k > 0 {
+				p.Script = second()
+			}
+			add(p)
 		}
 		for k, n := 0, 1+r.Intn(3); k < n; k++ {
-			add(Proc{Name: fmt.Sprintf("u%d", k+1), Kind: "tuser", Tracer: []string{"t1", "t1", "t2"}[r.Intn(3)],
-				Pre: r.Intn(2) == 0, N: 1 + r.Intn(4)})
+			p := Proc{Name: fmt.Sprintf("u%d", k+1), Kind: "tuser", Tracer: []string{"t1", "t1", "t2"}[r.Intn(3)],
+				Pre: r.Intn(2) == 0, N: 1 + r.Intn(4)}
+			p.Kept = !p.Pre && kept()
+			add(p)
 		}
 	}
 	for _, x := range []string{"prop", "eh"} {
 		if r.Intn(10) < 3 {
 			if r.Intn(4) > 0 {
-				add(Proc{Name: "xi." + x, Kind: "xinst", X: x})
+				add(Proc{Name: "xi." + x, Kind: "xinst", X: x, Script: script()})
 			}
 			add(Proc{Name: "xu." + x, Kind: "xuser", X: x, N: 1 + r.Intn(4), Fresh: r.Intn(3) == 0})
 		}
 	}
 	if len(sc.Procs) == 0 {
-		add(Proc{Name: "i1", Kind: "minst"})
+		add(Proc{Name: "i1", Kind: "minst", Script: script()})
 		add(Proc{Name: "c1", Kind: "creator", Meter: "m1", Pre: true, N: 2})
 	}
 	r.Shuffle(len(sc.Procs), func(a, b int) { sc.Procs[a], sc.Procs[b] = sc.Procs[b], sc.Procs[a] })
